@@ -35,39 +35,41 @@ def isDig (c : Char) : Bool := '0' ≤ c && c ≤ '9'
 
 def natOfDigits (ds : Str) : Nat := ds.foldl (fun v c => v * 10 + (c.toNat - '0'.toNat)) 0
 
+/-- optional sign -/
+def splitSign : Str → Bool × Str
+  | '-' :: r => (true, r)
+  | '+' :: r => (false, r)
+  | r => (false, r)
+
+/-- the decimal part of the grammar of `f64::from_str`: digits, optional fraction, optional exponent -/
+def f64Body (neg : Bool) (r : Str) : Option FloatDen :=
+  let ip := r.takeWhile isDig
+  let r1 := r.dropWhile isDig
+  let fr : Str × Str := match r1 with
+    | '.' :: t => (t.takeWhile isDig, t.dropWhile isDig)
+    | t => ([], t)
+  if ip.isEmpty ∧ fr.1.isEmpty then none
+  else
+    let mant := natOfDigits (ip ++ fr.1)
+    let baseExp : Int := -(fr.1.length : Int)
+    match fr.2 with
+    | [] => some (.fin neg mant baseExp)
+    | e :: t =>
+      if e = 'e' ∨ e = 'E' then
+        let ex := splitSign t
+        if ex.2.isEmpty ∨ !ex.2.all isDig then none
+        else
+          let ev : Int := natOfDigits ex.2
+          some (.fin neg mant (baseExp + (if ex.1 then -ev else ev)))
+      else none
+
 /-- grammar accepted by `f64::from_str` (core::num::dec2flt) -/
 def parseF64 (s : Str) : Option FloatDen :=
-  let (neg, r) := match s with
-    | '-' :: r => (true, r)
-    | '+' :: r => (false, r)
-    | r => (false, r)
-  let lr := lower r
-  if lr = "inf".toList ∨ lr = "infinity".toList then some (.inf neg)
+  let nr := splitSign s
+  let lr := lower nr.2
+  if lr = "inf".toList ∨ lr = "infinity".toList then some (.inf nr.1)
   else if lr = "nan".toList then some .nan
-  else
-    let ip := r.takeWhile isDig
-    let r1 := r.dropWhile isDig
-    let (fp, r2, hadDot) := match r1 with
-      | '.' :: t => (t.takeWhile isDig, t.dropWhile isDig, true)
-      | t => ([], t, false)
-    let _ := hadDot
-    if ip.isEmpty ∧ fp.isEmpty then none
-    else
-      let mant := natOfDigits (ip ++ fp)
-      let baseExp : Int := -(fp.length : Int)
-      match r2 with
-      | [] => some (.fin neg mant baseExp)
-      | e :: t =>
-        if e = 'e' ∨ e = 'E' then
-          let (eneg, ds) := match t with
-            | '-' :: ds => (true, ds)
-            | '+' :: ds => (false, ds)
-            | ds => (false, ds)
-          if ds.isEmpty ∨ !ds.all isDig then none
-          else
-            let ev : Int := natOfDigits ds
-            some (.fin neg mant (baseExp + (if eneg then -ev else ev)))
-        else none
+  else f64Body nr.1 nr.2
 
 /-- the characters `parse_f64` hands on to `f64::from_str` -/
 def floatByte (c : Char) : Bool := ('0' ≤ c && c ≤ '9') || c == '+' || c == '-' || c == '.' || c == 'e' || c == 'E'
